@@ -24,7 +24,7 @@ SPEC = {
 }
 
 
-def make_image(rng, tmp, ft, dirty, zero_with_cluster):
+def make_image(rng, tmp, ft, dirty, zero_with_cluster, part_slot=1):
     g = fatimg.Geometry(ft, 80, spc=1, bps=512, nfats=2, root_entries=64, type_string=True)
     b = fatimg.Builder(g, rng)
     used = set()
@@ -46,8 +46,8 @@ def make_image(rng, tmp, ft, dirty, zero_with_cluster):
     if dirty and ft != 'fat12':
         v = b.get(1)
         b.set(1, v & ~(0x8000 if ft == 'fat16' else 0x08000000))
-    disk = fatimg.mbr_wrap(bytes(b.img), ptype=0x0c)
-    path = os.path.join(tmp, f'{ft}-{int(dirty)}{int(zero_with_cluster)}.img')
+    disk = fatimg.mbr_wrap(bytes(b.img), ptype=0x0c, slot=part_slot)
+    path = os.path.join(tmp, f'{ft}-{int(dirty)}{int(zero_with_cluster)}-p{part_slot}.img')
     with open(path, 'wb') as f:
         f.write(disk)
     return path, names
@@ -60,7 +60,8 @@ from pathlib import Path
 from nobodd.server import BootServer
 from nobodd.config import Board
 images = %(images)r
-boards = {0x100 + i: Board(0x100 + i, Path(p), 1, None) for i, p in enumerate(images)}
+parts = %(parts)r
+boards = {0x100 + i: Board(0x100 + i, Path(p), parts[i], None) for i, p in enumerate(images)}
 srv = BootServer(('127.0.0.1', 0), boards)
 th = threading.Thread(target=srv.serve_forever, kwargs={'poll_interval': 0.01}, daemon=True)
 th.start()
@@ -85,7 +86,7 @@ res['alive'] = len(srv.subs._alive)
 srv.shutdown(); srv.server_close()
 # a table in which EVERY board is pinned to an address: a write request from any other host is still refused with ERROR
 import ipaddress
-pinned = {0x300 + i: Board(0x300 + i, Path(p), 1, ipaddress.ip_address('127.0.0.9')) for i, p in enumerate(images[:2])}
+pinned = {0x300 + i: Board(0x300 + i, Path(p), parts[i], ipaddress.ip_address('127.0.0.9')) for i, p in enumerate(images[:2])}
 srv2 = BootServer(('127.0.0.1', 0), pinned)
 th2 = threading.Thread(target=srv2.serve_forever, kwargs={'poll_interval': 0.01}, daemon=True)
 th2.start()
@@ -115,12 +116,15 @@ def one_round(ctx, build, rnd):
         combos = [c for c in combos if c[1] or c[2]] + [('fat16', False, False)]
     with tempfile.TemporaryDirectory() as tmp:
         imgs = []
+        slots = {}
         for ft, d, z in combos:
-            path, names = make_image(rng, tmp, ft, d, z)
+            slot = rng.choice([1, 2, 3])             # the boot partition is not always the first one
+            path, names = make_image(rng, tmp, ft, d, z, slot)
             imgs.append((path, names, (ft, d, z)))
+            slots[path] = slot
         before = {p: hashlib.sha256(open(p, 'rb').read()).hexdigest() for p, _, _ in imgs}
         # ---- in-process through the real BootHandler -----------------------------------------------
-        boards = {0x200 + i: Board(0x200 + i, Path(p), 1, None) for i, (p, _, _) in enumerate(imgs)}
+        boards = {0x200 + i: Board(0x200 + i, Path(p), slots[p], None) for i, (p, _, _) in enumerate(imgs)}
         images = {}
         try:
             for i, (p, names, cls) in enumerate(imgs):
@@ -192,7 +196,7 @@ def one_round(ctx, build, rnd):
         # ---- real BootServer, fresh interpreter, loopback UDP ------------------------------------------
         reqs = [('config.txt', b'octet', None), ('text file.txt', b'netascii', None), ('kernel.img', b'octet', 2),
                 ('empty', b'octet', None), ('zerolen.bin', b'octet', None), ('zerolen.bin', b'netascii', None), ('kernel.img', b'octet', None)]
-        res = realserver.run_script(REAL % dict(images=[p for p, _, _ in imgs], requests=reqs), timeout=240)
+        res = realserver.run_script(REAL % dict(images=[p for p, _, _ in imgs], parts=[slots[p] for p, _, _ in imgs], requests=reqs), timeout=240)
         ctx.case(('real', rnd, tuple(c for _, _, c in imgs)), True, 'real-udp')
         if res.get('crash'):
             ctx.violation('boot.serve/real-server-crash', f'real BootServer scenario crashed: {res.get("stderr", "")[-400:]}', res)
